@@ -13,6 +13,8 @@ type GenCfg struct {
 	NIDs    int
 	Routes  []string
 	Targets []string
+	// FarInstants: some `before` cursors lie outside the years 1678-2262
+	FarInstants bool
 	// ForcedOnly: only issue dequeues whose batch covers every eligible message
 	// (used where the choice among eligible messages must not matter).
 	ForcedOnly bool
@@ -282,6 +284,10 @@ func (g *Gen) filter(snap vlib.Snapshot, now time.Time) *queue.MessageManageFilt
 
 func (g *Gen) cursor(snap vlib.Snapshot, now time.Time) time.Time {
 	r := g.R
+	if g.Cfg.FarInstants && r.Chance(0.08) {
+		// valid instants an operator can type that lie outside what an int64 of nanoseconds holds (1678-2262)
+		return vlib.Pick(r, []time.Time{time.Date(2300, 1, 1, 0, 0, 0, 0, time.UTC), time.Date(9999, 12, 31, 23, 59, 59, 0, time.UTC), time.Date(1600, 1, 1, 0, 0, 0, 0, time.UTC), time.Date(1, 1, 2, 0, 0, 0, 0, time.UTC)})
+	}
 	ids := snap.IDs()
 	if len(ids) > 0 && r.Chance(0.7) {
 		t := snap[vlib.Pick(r, ids)].ReceivedAt
